@@ -273,9 +273,18 @@ func genAll(b bounds, out outFn) {
 	genHolder(b, out, "H0", 0, func(l []string, x string) L0 { return L0{X: x} })
 	genHolder(b, out, "H1", 1, func(l []string, x string) L1 { return L1{N: l[0], X: x} })
 	genHolder(b, out, "H2", 2, func(l []string, x string) L2 { return L2{K: l[0], N: l[1], X: x} })
+	genHolder(b, out, "HE", 1, func(l []string, x string) EmbL { return EmbL{K: l[0], X: x} })
+	genEmb(b, out)
 	genWrap(b, out)
 	genDeep(b, out)
 	genSib(b, out)
+}
+
+func genEmb(b bounds, out outFn) {
+	out("Emb", "embedded-struct", &Emb{Name: "n"})
+	out("Emb", "embedded-struct", &Emb{Name: "n", N: 2, Z: "z"})
+	out("Emb", "embedded-struct", &Emb{Name: "n", Blks: []L1{{N: "a", X: "x"}, {N: "b"}}, Z: "z"})
+	out("Emb", "embedded-struct", &Emb{Name: "", N: -1, Blks: []L1{}})
 }
 
 func genOpts(b bounds, out outFn) {
